@@ -1,4 +1,4 @@
-"""C16 WorkerPool: interleaving model (coq/C16_Pool) + correspondence (DESIGN.md §7.16):
+"""C16 WorkerPool: interleaving model (coq/C16_Pool) + group aggregation model (Group.v) + correspondence (DESIGN.md §7.16):
 directed/random scripts compared in lockstep with the model (settle after every directive; verif yield hooks and
 gated tasks restrict the schedule) and free-running runs judged by the conservation predicate."""
 from . import lib
@@ -13,8 +13,8 @@ def run(ctx):
     ctx.proof_side(DIRS, "Properties/C16.v", extra_trusted=[
         "hand-written interleaving model of runtime/workerpool/workerpool.go + task.go and of Stack.Push/PopOrWait/SignalShutdown (Model.v), tied to the code by the correspondence check only",
         "Counter.WaitIsZero and WaitGroup.Wait are modelled as steps enabled iff the awaited condition holds (condition-variable discipline of Counter: C17); critical sections without blocking calls are single steps",
-        "group.go (WaitChildren/WaitParents aggregation) is NOT modelled: exercised by /repo's own tests only",
-        "shutdown termination of the repaired model is not proved in general (C16_shutdown_terminates_full_statement): covered by the correspondence runs (watchdogs) and by the refutation/regression schedules only",
+        "group.go: hand-written model (Group.v) of the counter aggregation in which one Counter.update/set with its whole subscriber chain pool -> group -> parent group is ONE atomic step (the code runs the chain under the valueMutex of every counter on the path, locks taken child -> parent); tied to the code by sequential lockstep histories and free concurrent runs (sub-command group)",
+        "shutdown termination is proved as absence of non-final stuck states plus progress (C16_shutdown_terminates, C16_shutdown_progress) for every schedule of the repaired model; that every fair maximal run is finite (no livelock) is not proved - covered by the watchdogs of the correspondence runs only",
     ])
     if thorough:
         for k in range(5):
